@@ -9,7 +9,7 @@ for sid in sorted(os.listdir(os.path.join(V, 'seeded'))):
         continue
     m = json.load(open(mp))
     cr = m.get('check_result', {})
-    first = m.get('first_run', cr.get('status', '?'))
+    first = m.get("first_run", cr.get("status", "?"))
     rows.append('| %s | %s | %s | %s | %s | %s |' % (sid, m['property'], (m.get('summary') or '').replace('|', '/').replace('\n', ' ')[:150],
                                                 (m.get('needs') or '').replace('|', '/').replace('\n', ' ')[:130], first, ', '.join(cr.get('clauses', []))))
 print('| id | property | change | needs | first run | detected by (now) |\n|---|---|---|---|---|---|')
